@@ -254,10 +254,13 @@ package dag
 //@   props C04
 //@   maypanic
 //@   requires base != nil
-//@   modifies base.id
+//@   modifies base.id, json.lastMarshalled, json.lastMarshalledOf
 //@   opt trusted_frame
 //@   ensures [stable]  old(base.id) != entity.UnsetId ==> result == old(base.id) && base.id == old(base.id)
 //@   ensures [derived] old(base.id) == entity.UnsetId ==> base.id == result && result != "" && result != entity.UnsetId
+// ... and the id predicted for an operation not stored yet is derived from json.Marshal of the operation - the
+// encoder the pack is stored with (reading derives the id from the stored bytes)
+//@   assert at `base.id = entity.DeriveId(data)` [id-from-the-stored-encoding] data == json.lastMarshalled && json.lastMarshalledOf == op
 //@ func (*Entity).FirstOp
 //@   props C04
 //@   requires e != nil
@@ -304,3 +307,24 @@ package dag
 //@   ensures [edit-clock-covers-head] result == nil ==> (ref in repository.refs) && repository.clockSeen[def.Namespace + "-edit"] >= packEdit(repository.refs[ref])
 //@   check [create-clock-covers-root] result == nil ==> len(commit.Parents) == 0 && repository.clockSeen[def.Namespace + "-create"] >= packCreate(commit.Hash)
 //@   ensures [monotone] forall n string :: { repository.clockSeen[n] } repository.clockSeen[n] >= old(repository.clockSeen[n])
+
+// The "extra" tree of a pack (C04: attached files are stored with the entity and travel with it; C15: every
+// object written is well formed): every file of every file-carrying operation of the pack is referenced by an
+// entry - whatever operations come before it - and no two entries share a name (git rejects duplicate names).
+//@ func OperationWithFiles.GetFiles
+//@   purefn
+//@ func (*operationPack).makeExtraTree
+//@   props C04 C15
+//@   opt inv_core=l1-names,l1-added,l2-names,l2-added,l2-current
+//@   requires opp != nil
+//@   ensures [every-file-referenced] forall k int :: { opp.Operations[k] } 0 <= k && k < len(opp.Operations) && implements(opp.Operations[k], OperationWithFiles) ==> (forall j int :: { opp.Operations[k].(OperationWithFiles).GetFiles()[j] } 0 <= j && j < len(opp.Operations[k].(OperationWithFiles).GetFiles()) ==> (exists e int :: { result[e] } 0 <= e && e < len(result) && result[e].Hash == opp.Operations[k].(OperationWithFiles).GetFiles()[j]))
+//@   ensures [names-distinct] forall a int :: { result[a] } forall b int :: { result[b] } 0 <= a && a < b && b < len(result) ==> result[a].Name != result[b].Name
+//@   loop 1
+//@     invariant [l1-names] len(tree) == counter && (tree == nil || fresh(tree)) && (forall a int :: { tree[a] } 0 <= a && a < len(tree) ==> tree[a].Name == "file" + itoa(a))
+//@     invariant [l1-added] forall h repository.Hash :: { (h in added) } (h in added) ==> (exists e int :: { tree[e] } 0 <= e && e < len(tree) && tree[e].Hash == h)
+//@     invariant [l1-done]  forall k int :: { opp.Operations[k] } 0 <= k && k <= rangeindex && implements(opp.Operations[k], OperationWithFiles) ==> (forall j int :: { opp.Operations[k].(OperationWithFiles).GetFiles()[j] } 0 <= j && j < len(opp.Operations[k].(OperationWithFiles).GetFiles()) ==> (exists e int :: { tree[e] } 0 <= e && e < len(tree) && tree[e].Hash == opp.Operations[k].(OperationWithFiles).GetFiles()[j]))
+//@   loop 2
+//@     invariant [l2-names] len(tree) == counter && (tree == nil || fresh(tree)) && (forall a int :: { tree[a] } 0 <= a && a < len(tree) ==> tree[a].Name == "file" + itoa(a))
+//@     invariant [l2-added] forall h repository.Hash :: { (h in added) } (h in added) ==> (exists e int :: { tree[e] } 0 <= e && e < len(tree) && tree[e].Hash == h)
+//@     invariant [l2-done]  forall k int :: { opp.Operations[k] } 0 <= k && k <= rangeindex1 && implements(opp.Operations[k], OperationWithFiles) ==> (forall j int :: { opp.Operations[k].(OperationWithFiles).GetFiles()[j] } 0 <= j && j < len(opp.Operations[k].(OperationWithFiles).GetFiles()) ==> (exists e int :: { tree[e] } 0 <= e && e < len(tree) && tree[e].Hash == opp.Operations[k].(OperationWithFiles).GetFiles()[j]))
+//@     invariant [l2-current] forall j int :: { rangeslice[j] } 0 <= j && j <= rangeindex ==> (exists e int :: { tree[e] } 0 <= e && e < len(tree) && tree[e].Hash == rangeslice[j])
